@@ -233,7 +233,7 @@ pub fn templates() -> Vec<G> {
         j("ab"),
         G::Then(b(j("a")), b(G::OrNot(b(j("b"))))),
         G::Then(b(G::OrNot(b(j("a")))), b(j("b"))),
-        G::Rep(Rep { item: b(j("ab")), sep: None, leading: false, trailing: false, lo: 0, hi: None, sink: Sink::Vec, cfg: false }),
+        G::Rep(Rep { item: b(j("ab")), sep: None, leading: false, trailing: false, lo: 0, hi: None, sink: Sink::Vec, cfg: false, ctxb: 0 }),
         G::Validate(b(G::Then(b(j("a")), b(G::Validate(b(G::OneOf("ab".into())), 5, 1)))), 6, 1),
         G::TryMap(b(G::Any), Pred::FirstIn("a".into()), 3),
         G::Custom { take: 1, ok: false, tag: 4 },
